@@ -21,7 +21,7 @@ func init() {
 			"(so the counter never exceeds the maximum); the line is cut with key[:limit] under len(key) > limit; NONEMPTY every stored entry has at least one timestamp (insertions store a one-element list, updates append, the expiry reslice is followed in the same " +
 			"critical section by the deletion of every entry that became empty); EVICT the eviction loop takes the front of a list that holds every stored entry, sorted ascending by last timestamp, and runs only while need + size > max, which with need <= max and ACCOUNT " +
 			"implies a non-empty list; every other index/slice in the three methods and their comparison closures is proved by BOUND (sort.Slice contract for the closures); all methods are lock-balanced and touch the state only under the lock; " +
-			"the constructor is only called with positive limits. NOT decided: the long-run behaviour over arbitrary operation sequences as such (these are the inductive invariants such a behaviour rests on, each checked at every writer), DumpLogEntries' output order beyond the comparator direction.",
+			"the constructor is only called with positive limits. TRUNC a line is inserted only with len <= logMaxLineBytes and the duplicate test uses the same (cut) line as the insertion. NOT decided: the long-run behaviour over arbitrary operation sequences as such (these are the inductive invariants such a behaviour rests on, each checked at every writer), DumpLogEntries' output order beyond the comparator direction.",
 		Assumptions: append([]string{"sort.Slice sorts according to the less function (godoc)", "NewEventLogger is only called with positive limits (checked at every call site in the repository: rule CFG)"}, baseAssumptions...),
 		Run:         runC18,
 	})
@@ -731,6 +731,21 @@ func eventLogLineLimit(c *an.Ctx) {
 						}
 					}
 				}
+				// the duplicate test looks the line up under the very key it would be inserted under (the cut line)
+				sameKey, nLk := true, 0
+				for _, bb := range fn.Blocks {
+					for _, i2 := range bb.Instrs {
+						if lk, ok := i2.(*ssa.Lookup); ok {
+							if f, ok := fi.RefClass(lk.X).FieldOf("EventLogger"); ok && f == "logs" {
+								nLk++
+								if fi.Term(lk.Index).Key() != keyT.Key() {
+									sameKey = false
+								}
+							}
+						}
+					}
+				}
+				c.Check(sameKey && nLk > 0, "TRUNC", fn, mu.Pos(), an.KeyOf(fn, "lookup-key-is-insert-key"), "the duplicate test uses the same (cut) line as the insertion: a repeated long line is recognised as a repeat and is not charged again", fmt.Sprintf("%d lookups", nLk))
 				c.Check(ok2, "TRUNC", fn, mu.Pos(), an.KeyOf(fn, "line-limit"), "a line is inserted into the log only with len(line) <= logMaxLineBytes (longer lines are cut first)", desc)
 			}
 		}
